@@ -58,6 +58,10 @@ def pep3333(s):
     except AssertionError as e:
         return 'AssertionError: %s' % (e,)
     except Exception as e:
+        if type(e).__name__ == 'Boom' and s['inj'].get('ser') == 'late' and s['cfg']['chunked']:
+            # the producer of a lazily sent body failed after the status line was out: the failure is the server's to see
+            # (SpynePipeline.BodyFails); the monitor has nothing to say about it
+            return None
         return '%s' % type(e).__name__
     return None
 
